@@ -13,13 +13,15 @@ func init() {
 			}
 			for n := 1; n <= maxN; n++ {
 				for def := 0; def <= 1; def++ {
-					r = append(r, Oblig{Harness: "vh_C04_assign", Globals: map[string]int{"vhNAssign": n, "vhDefine": def}, Unroll: 12, MaxPaths: 400000})
+					for arr := 0; arr <= 1; arr++ {
+						r = append(r, Oblig{Harness: "vh_C04_assign", Globals: map[string]int{"vhNAssign": n, "vhDefine": def, "vhSlotArr": arr}, Unroll: 12, MaxPaths: 400000})
+					}
 				}
 			}
 			return r
 		},
-		Bounds:      []string{"1..2 (thorough 3) operands on each side", "destinations and sources: any of 4 frame slots (every aliasing pattern)", "any subset of destinations blank", "= and := forms", "slot contents: any int64"},
-		Assumptions: []string{"operands are plain variables of type int in the current frame (copy semantics of Set for arrays/structs is reflect's)", "a := statement does not repeat a variable on its left side"},
+		Bounds:      []string{"1..2 (thorough 3) operands on each side", "destinations and sources: any of 4 frame slots (every aliasing pattern)", "any subset of destinations blank", "= and := forms", "variables of type int (any value in (-1000,1000)) or [2]int (arrays are values: assignment copies)"},
+		Assumptions: []string{"operands are plain variables of type int or [2]int in the current frame (copy semantics of reflect.Value.Set on arrays is the reflect model's)", "a := statement does not repeat a variable on its left side"},
 		Outside:     []string{"everything else in C04: call/range/capture copies, append/copy/slicing, maps, pointers, composite literals, map-entry and index destinations, histories"},
 	}
 }
